@@ -108,7 +108,12 @@ impl<A, C: Clock, F: Filter, R, S> Port<'_, Running, A, R, C, F, S> {
 
                 // substracting correction from recv time is equivalent to adding it to send
                 // time
-                let corrected_recv_time = recv_time - Duration::from(header.correction_field);
+                let Some(corrected_recv_time) =
+                    recv_time.checked_sub(Duration::from(header.correction_field))
+                else {
+                    log::warn!("Sync with correction field out of range of its timestamp ignored");
+                    return actions![];
+                };
 
                 if header.two_step_flag {
                     match state.sync_state {
@@ -172,8 +177,14 @@ impl<A, C: Clock, F: Filter, R, S> Port<'_, Running, A, R, C, F, S> {
                     return actions![];
                 }
 
-                let packet_send_time = Time::from(message.precise_origin_timestamp)
-                    + Duration::from(header.correction_field);
+                let Some(packet_send_time) = Time::from(message.precise_origin_timestamp)
+                    .checked_add(Duration::from(header.correction_field))
+                else {
+                    log::warn!(
+                        "FollowUp with correction field out of range of its timestamp ignored"
+                    );
+                    return actions![];
+                };
 
                 match state.sync_state {
                     SyncState::Measuring {
@@ -236,10 +247,16 @@ impl<A, C: Clock, F: Filter, R, S> Port<'_, Running, A, R, C, F, S> {
                         ref mut recv_time,
                         ..
                     } if id == header.sequence_id => {
-                        *recv_time = Some(
-                            Time::from(message.receive_timestamp)
-                                - Duration::from(header.correction_field),
-                        );
+                        let Some(corrected_recv_time) = Time::from(message.receive_timestamp)
+                            .checked_sub(Duration::from(header.correction_field))
+                        else {
+                            log::warn!(
+                                "DelayResp with correction field out of range of its timestamp \
+                                 ignored"
+                            );
+                            return actions![];
+                        };
+                        *recv_time = Some(corrected_recv_time);
                         self.handle_time_measurement()
                     }
                     _ => {
@@ -301,7 +318,15 @@ impl<A, C: Clock, F: Filter, R, S> Port<'_, Running, A, R, C, F, S> {
                 ref mut responder_identity,
                 ..
             } if id == header.sequence_id => {
-                *response_recv_time = Some(recv_time - Duration::from(header.correction_field));
+                let Some(corrected_recv_time) =
+                    recv_time.checked_sub(Duration::from(header.correction_field))
+                else {
+                    log::warn!(
+                        "PDelayResp with correction field out of range of its timestamp ignored"
+                    );
+                    return actions![];
+                };
+                *response_recv_time = Some(corrected_recv_time);
                 *request_recv_time = Some(message.request_receive_timestamp.into());
                 *responder_identity = Some(header.source_port_identity);
 
@@ -362,10 +387,16 @@ impl<A, C: Clock, F: Filter, R, S> Port<'_, Running, A, R, C, F, S> {
                 ref mut responder_identity,
                 ..
             } if id == header.sequence_id => {
-                *response_send_time = Some(
-                    Time::from(message.response_origin_timestamp)
-                        + Duration::from(header.correction_field),
-                );
+                let Some(corrected_send_time) = Time::from(message.response_origin_timestamp)
+                    .checked_add(Duration::from(header.correction_field))
+                else {
+                    log::warn!(
+                        "PDelayRespFollowUp with correction field out of range of its timestamp \
+                         ignored"
+                    );
+                    return actions![];
+                };
+                *response_send_time = Some(corrected_send_time);
                 *responder_identity = Some(header.source_port_identity);
                 self.handle_time_measurement()
             }
